@@ -787,7 +787,8 @@ fn cmd_determinism(a: &Args) -> i32 {
     let nseeds: u64 = a.opts.get("seeds").and_then(|s| s.parse().ok()).unwrap_or(6);
     let runs: u64 = a.opts.get("runs").and_then(|s| s.parse().ok()).unwrap_or(3000);
     let exe = std::env::current_exe().expect("current_exe");
-    let dir = std::path::PathBuf::from(format!("/verif/sim/target/dmsim-det-{}", std::process::id()));
+    // next to the executable (sim/target/<profile>/), never under /tmp
+    let dir = exe.parent().map(|p| p.to_path_buf()).unwrap_or_default().join(format!("dmsim-det-{}", std::process::id()));
     let _ = std::fs::create_dir_all(&dir);
     let mut bad = 0;
     let mut compared = 0;
